@@ -36,6 +36,24 @@ Theorem multigrid_terminates_in_documented_order c :
   fine_cycle (fuel_for c) c = Some (fine_tb c).
 Proof. exact (fine_cycle_order c). Qed.
 
+(* 3b. With cycling semicoarsening / line relaxation every fine-grid cycle is the
+   textbook cycle of its own configuration (the level-0 cycle counter is
+   re-computed in every cycle: flag [level0_cycmax_recomputed] read off
+   solver.py), for any number of cycles. *)
+Theorem every_cycle_in_documented_order c psc plr n :
+  (forall k, 0 <= bottom (cfg_at c psc plr k)) ->
+  (cyc c = 70 \/ cyc c = 86 \/ cyc c = 87) ->
+  outer_cycles c psc plr n =
+  map (fun k => Some (fine_tb (cfg_at c psc plr k))) (zrange n).
+Proof. exact (outer_cycles_order c psc plr n). Qed.
+
+(* ... and with a level-0 counter taken once from the first cycle (the code as
+   found at the pinned commit) the statement is false: F degenerates to V. *)
+Theorem stale_level0_cycmax_refuted :
+  exists c1 c, 0 <= bottom c /\ cyc c = 70 /\
+    fine_cycle_stale c1 (fuel_for c) c <> Some (fine_tb c).
+Proof. exact stale_cycmax_refuted. Qed.
+
 (* 4. Every event of a cycle is well-formed: levels lie in [0, bottom], the
    coarsest-grid solve happens exactly at the bottom level, the shape at level l
    is shape_at l, the smoother/restriction use the adapted directions. *)
@@ -103,6 +121,8 @@ Print Assumptions max_level_spec.
 Print Assumptions halvable_means_even_and_gt2.
 Print Assumptions bottom_level_spec.
 Print Assumptions multigrid_terminates_in_documented_order.
+Print Assumptions every_cycle_in_documented_order.
+Print Assumptions stale_level0_cycmax_refuted.
 Print Assumptions cycle_events_wellformed.
 Print Assumptions shape_at_level.
 Print Assumptions never_below_two.
